@@ -450,3 +450,42 @@ Proof.
   - vm_compute. reflexivity.
   - vm_compute. reflexivity.
 Qed.
+
+(* ================= audit follow-up ================= *)
+(* `collector_ok` (hypothesis of the ResetInserter theorems) holds for every statement list whose assignment targets
+   name their signals with the shapes of the signal table *)
+Theorem C03_collector_ok_from_shapes tab ss : (forall i, 0 <= width (sd_shape (tab i))) -> stmts_sig_ok tab ss ->
+  collector_ok tab ss.
+Proof. exact (collector_ok_of_sig_ok tab ss). Qed.
+Print Assumptions C03_collector_ok_from_shapes.
+
+Example C03_collector_ok_from_shapes_hyps : (forall i, 0 <= width (sd_shape (ex_tab i))) /\ stmts_sig_ok ex_tab ex_ss.
+Proof.
+  split.
+  - intros i. destruct i as [|[|[|[|i]]]]; cbn; lia.
+  - unfold stmts_sig_ok. cbn. repeat constructor.
+Qed.
+
+(* ClockSignal / ResetSignal (pseudo signals cs_index base d k): a value rewritten by DomainRenamer and then resolved
+   by DomainLowerer in a design where every renamed domain has the configuration of the original one is the value
+   resolved directly — late-bound signals follow the logic to the target domain *)
+Theorem C03_late_bound_follow_renaming base rho doms doms' e :
+  (forall i d k, In i (expr_sigs e) -> cs_decode base i = Some (d, k) -> doms' (rename_dom rho d) = doms d) ->
+  map_sig (lower_sig base doms') (map_sig (ren_sig base rho) e) = map_sig (lower_sig base doms) e.
+Proof. exact (lower_rename base rho doms doms' e). Qed.
+Print Assumptions C03_late_bound_follow_renaming.
+
+Theorem C03_renamer_keeps_plain_values base rho e : (forall i, In i (expr_sigs e) -> (i < base)%nat) ->
+  map_sig (ren_sig base rho) e = e.
+Proof. exact (rename_no_cs base rho e). Qed.
+Print Assumptions C03_renamer_keeps_plain_values.
+
+Example C03_late_bound_example :
+  let e := EOp2 OAdd (ESig (cs_index 100 3 0) (Sh 1 false)) (ESig (cs_index 100 3 1) (Sh 1 false)) in
+  let doms' : domtab := fun d => match d with 2%nat => {| d_clk := 7; d_pos := true; d_rst := None; d_async := false |}
+                                  | _ => ex_doms d end in
+  map_sig (ren_sig 100 [(3%nat, 2%nat)]) e
+    = EOp2 OAdd (ESig (cs_index 100 2 0) (Sh 1 false)) (ESig (cs_index 100 2 1) (Sh 1 false)) /\
+  map_sig (lower_sig 100 doms') (map_sig (ren_sig 100 [(3%nat, 2%nat)]) e)
+    = EOp2 OAdd (ESig 7 (Sh 1 false)) (EConst 0 (Sh 1 false)).
+Proof. split; reflexivity. Qed.
